@@ -109,20 +109,20 @@ func c10Bases() []FuzzCase {
 	slow := swr
 	slow.DelayS = 3
 	return []FuzzCase{
-		one(base, "304", g(0, ""), g(1, ""), g(1, "")),                                     // miss-store, hit, hit
-		one(base, "304", g(0, ""), g(20, ""), g(1, "")),                                    // 304 revalidation, then hit
-		one(base, "200", g(0, ""), g(20, ""), g(1, "")),                                    // 200 replace
-		one(base, "500", g(0, ""), g(20, ""), g(1, "")),                                    // 5xx on validation
-		one(base, "err", g(0, ""), g(20, ""), g(1, "")),                                    // transport error on validation
-		one(swr, "304", g(0, ""), g(20, ""), g(1, ""), g(5, "")),                           // SWR + background 304
-		one(swr, "200", g(0, ""), g(20, ""), g(1, "")),                                     // SWR + background 200
-		one(swr, "err", g(0, ""), g(20, ""), g(1, "")),                                     // SWR + background error
-		one(swr, "503", g(0, ""), g(20, ""), g(1, "")),                                     // SWR + background 5xx
-		one(slow, "304", g(0, ""), g(20, ""), g(0, ""), g(10, "")),                         // SWR with a slow origin, overlapping requests
-		one(sie, "503", g(0, ""), g(20, ""), g(1, "stale-if-error=5")),                     // stale-if-error
-		one(sie, "err", g(0, ""), g(20, "")),                                               // stale-if-error on transport error
-		one(base, "304", g(0, ""), m("POST"), g(1, ""), m("DELETE"), g(0, "")),             // invalidation
-		one(base, "304", g(0, "only-if-cached"), g(0, ""), g(1, "only-if-cached"), g(20, "only-if-cached")), // only-if-cached: empty, fresh, stale
+		one(base, "304", g(0, ""), g(1, ""), g(1, "")),                                                                      // miss-store, hit, hit
+		one(base, "304", g(0, ""), g(20, ""), g(1, "")),                                                                     // 304 revalidation, then hit
+		one(base, "200", g(0, ""), g(20, ""), g(1, "")),                                                                     // 200 replace
+		one(base, "500", g(0, ""), g(20, ""), g(1, "")),                                                                     // 5xx on validation
+		one(base, "err", g(0, ""), g(20, ""), g(1, "")),                                                                     // transport error on validation
+		one(swr, "304", g(0, ""), g(20, ""), g(1, ""), g(5, "")),                                                            // SWR + background 304
+		one(swr, "200", g(0, ""), g(20, ""), g(1, "")),                                                                      // SWR + background 200
+		one(swr, "err", g(0, ""), g(20, ""), g(1, "")),                                                                      // SWR + background error
+		one(swr, "503", g(0, ""), g(20, ""), g(1, "")),                                                                      // SWR + background 5xx
+		one(slow, "304", g(0, ""), g(20, ""), g(0, ""), g(10, "")),                                                          // SWR with a slow origin, overlapping requests
+		one(sie, "503", g(0, ""), g(20, ""), g(1, "stale-if-error=5")),                                                      // stale-if-error
+		one(sie, "err", g(0, ""), g(20, "")),                                                                                // stale-if-error on transport error
+		one(base, "304", g(0, ""), m("POST"), g(1, ""), m("DELETE"), g(0, "")),                                              // invalidation
+		one(base, "304", g(0, "only-if-cached"), g(0, ""), g(1, "only-if-cached"), g(20, "only-if-cached")),                 // only-if-cached: empty, fresh, stale
 		one(vary, "304", g(0, "", "X-A", "1"), g(0, "", "X-A", "2"), g(1, "", "X-A", "1"), g(20, "", "X-A", "2"), g(1, "")), // Vary
 		one(base, "304", g(0, "no-store"), g(0, "no-cache"), g(1, "max-age=0"), g(1, "max-stale=5"), g(30, "max-stale")),    // request directives
 		one(RespSpec{Status: 200, CC: []string{"no-cache"}, ETag: `"v0-0"`, BodySize: 9}, "304", g(0, ""), g(1, ""), g(1, "only-if-cached")),
@@ -511,7 +511,6 @@ func TestC10OddHeaders(t *testing.T) {
 	r.SetExhaustive(true)
 	r.Done()
 }
-
 
 // closeDelimitedFault: the faulted value's header block carries neither a
 // Content-Length nor a chunked Transfer-Encoding.
